@@ -18,3 +18,7 @@ claim("C19", "Hypothesis property-based testing + bounded-exhaustive enumeration
       "Generated suite trees (plain / subclass / sort_tests / non-mutating filter_by_ids, empty suites, duplicate ids) are built from real unittest/testtools objects; iterate_tests must equal the reference pre-order, filter_by_ids the reference filtered sequence and grouping, sorted_tests must raise ValueError iff ids repeat and otherwise return the same tests with plain suites flattened, custom suites whole and keys ordered; testtools.run.main is driven in-process for --list and --load-list (incl. empty list files).",
       "Process-level behaviour is exercised through testtools.run.main in-process (SystemExit captured), not through a child interpreter; placement of empty custom suites not asserted.",
       "DESIGN.md 4/C19")
+claim("C17", "Hypothesis model-based history generation against a (global, local) tag model, replayed on 12 reporter/adapter configurations",
+      "Generated histories of startTestRun / tags (outside, inside, between outcome and stopTest) / startTest / outcome / stopTest / start-less addSkip+stopTest / PlaceHolder(tags).run are applied to TestResult, TextTestResult, TestByTestResult, MultiTestResult, ThreadsafeForwardingResult, Tagger (also over TSFR), TestResultDecorator, ExtendedToOriginalDecorator (tagged, tag-less and real targets) and ExtendedToStreamDecorator -> StreamToExtendedDecorator; after every call current_tags must equal the model, and at every outcome the tags observed by wrapped results / final status events must equal the reporter's.",
+      "tags() called with disjoint sets; single thread (interleavings are C12's business).",
+      "DESIGN.md 4/C17")
